@@ -161,7 +161,6 @@ pub trait AppSet {
         ensures final(self).apps() == apps_updated(old(self).apps(), app_responses@),
             final(self).system_app_id() == old(self).system_app_id();
     fn persist<'a, VxI0: Storage>(&'a self, storage: &'a mut VxI0) -> (f: LocalBoxFuture<'a, ()>)
-        ensures f.awaited() ==> final(storage).log().len() >= old(storage).log().len()
-            && final(storage).log().subrange(0, old(storage).log().len() as int) == old(storage).log()
+        ensures f.awaited() ==> is_ext(old(storage).log(), final(storage).log())
             && app_persist_ops(self.apps(), final(storage).log().subrange(old(storage).log().len() as int, final(storage).log().len() as int));
 }
